@@ -46,6 +46,9 @@ const LOOPY: &[Loopy] = &[
         src: ".orig x0100\nld r0 kk\nnear jmp r0\nkk .fill x8303\n.blkw x8200\nfar add r1 r1 #1\nbrnzp far\n" },
     Loopy { outside: &[], class: "sub_loop", stack: true, origin: 0x3000, n: 8, labels: &[("again", 2), ("f", 6), ("fr", 7)],
         src: "and r4 r4 #0\nadd r4 r4 #3\nagain call f\nadd r4 r4 #-1\nbrp again\nhalt\nf add r1 r1 #1\nfr rets\n" },
+    // two labels that differ only in letter case, on different instructions of the loop
+    Loopy { outside: &[], class: "two_loop", stack: false, origin: 0x3000, n: 6, labels: &[("lp", 1), ("LP", 2)],
+        src: "and r1 r1 #0\nlp add r1 r1 #1\nLP add r2 r2 #1\nadd r3 r1 #-3\nbrn lp\nhalt\n" },
     // leaves its image: jumps over the loader's HALT into zeroed memory (NOPs) and runs on to xFE00;
     // breakpoints there are on addresses that hold no statement
     Loopy { outside: &[7, 9], class: "outside_image", stack: false, origin: 0xFDE0, n: 4, labels: &[("tail", 3), ("go", 2)],
